@@ -63,6 +63,10 @@ THEOREMS = [
     'C06.resolve_int_out_of_range', 'C06.resolve_zero_step', 'C06.resolve_mask_length', 'C06.propGet_missing_key',
     'C06.pbcSet_bad_length_rejects', 'C06.sysExtend_scale_int_rejects', 'C06.propAtype_scalar_rejects',
     'C06.mkAtoms_rolls_back', 'C06.step_format', 'C06.step_unmodelled',
+    # degenerate per-atom shapes (1,), (1,1), ...: the broadcast of view[key] = value keeps the trailing shape of what it
+    # is handed (one row 1 :: t -> natoms :: t, never flattened); atoms[index] gives every property shape m :: trail for
+    # every number m of selected atoms (m = 1, 0 included)
+    'C06.viewBcast_keeps_trail', 'C06.getItem_keeps_shape',
 ]
 PARTIAL = {
     'refines (single statement abs(step s op) = specStep(abs s) op for every op)':
@@ -176,7 +180,17 @@ RULE = ('histories of 4-30 operations over up to 7 live Atoms and their Systems,
         'values; then read back by prop(), prop(name), indexed; written again by attribute set and view set on the EXISTING '
         'name and by an indexed prop; followed through atoms[...], extend, deepcopy, atoms_ix, df, len/str; the random '
         'histories draw from p0..p4, _g, __d__, a-b. matrix_tables: df() / atoms_df(scale False / True / [keys]) on per-atom '
-        '(3,3) float, (2,3) int, (3,3) str properties with all components different, on the object, a slice and a system.')
+        '(3,3) float, (2,3) int, (3,3) str properties with all components different, on the object, a slice and a system. '
+        '(h) round 5: matrix_shapes (~1330 histories): the degenerate per-atom shapes (1,), (1,1), (1,3), (3,1), (1,1,1) of every '
+        'dtype class x 14 index forms selecting exactly ONE of 5 atoms (+ 3 controls) through every extracting accessor, keyed '
+        'read and keyed write (value as one row per atom / scalar / ONE row / bare per-atom value) and item assignment; every '
+        'creation route from a full-length / one-row / bare value; one-atom objects carrying them read, copied, indexed, '
+        'extended (property in both / donor only / extended object only), wrapped in a System, used as donors; the random '
+        'histories draw trailing shapes from (), (3,), (3,3), (1,), (1,1), (1,3), (3,1). matrix_flags (~130 histories): scale '
+        'of System(...) / atoms_prop as 1 / 0 / numpy.True_ / numpy.False_ / 1.0 / 0.0 (refused with TypeError or taken as the '
+        'truth value: search only), scale of atoms_extend and safecopy in those spellings (model sees the bool); atom types as '
+        'uint64 / uint8 / uint16 / int32 / int8, values of those dtypes and float32 written into int64 / float64 columns, an atom '
+        'type 0 in an unsigned dtype; index scalars / arrays of unsigned and 32-bit dtypes through every accessor.')
 ASSUMPTIONS = [
     'numpy semantics used by Atoms/System are as transcribed in lean/Atomman/C06.lean (mini-numpy: basic slices are '
     'views, integer-list / boolean indexing, deepcopy, np.array(np.broadcast_to()), np.zeros copy; assignment '
@@ -222,7 +236,7 @@ NAMES = ['_g', '__h', '__d__', '_Atoms__q', '_0', 'a-b', '2x', 'x.y', 'a', 'po',
 CLASS_ATTRS = ('natypes', 'df')
 STRS = ['a', 'b', 'Fe', 'Al', 'xyz', 'Q', 'uvw', 'Cu', '']
 SYMS = ['Al', 'Fe', 'Cu', 'Ni', 'X']
-TRAILS = [[], [], [3], [3, 3]]
+TRAILS = [[], [], [3], [3, 3], [], [3], [1], [1, 1], [1, 3], [3, 1]]
 ERRCLS = {ValueError: 'value', TypeError: 'type', IndexError: 'index', KeyError: 'key', AssertionError: 'assert'}
 
 
@@ -249,6 +263,13 @@ def lit_np(l):
     if l['dt'] == 's':
         dt = f"<U{l['w']}"
     arr = np.array(l['data'], dtype=dt).reshape(l['shape'])
+    if l.get('as'):
+        # the same numbers in a narrower / unsigned dtype (exactly representable: checked), e.g. uint64 atom types (the
+        # dtype Atoms itself uses for the default atype), int32 / uint8 / float32 values written into int64 / float64 columns
+        narrow = arr.astype(l['as'])
+        if not np.array_equal(narrow.astype(arr.dtype), arr):
+            raise ValueError('literal not representable as ' + l['as'])
+        return narrow
     return arr
 
 
@@ -256,7 +277,7 @@ def lit_arg(l):
     """what is passed to atomman: python scalar for 0-d, fresh ndarray otherwise."""
     arr = lit_np(l)
     if arr.ndim == 0:
-        return arr.item()
+        return arr[()] if l.get('as') else arr.item()       # (a numpy scalar of the narrow dtype / a python scalar)
     return arr
 
 
@@ -287,11 +308,16 @@ def cell_tokens(arr):
     return ['?'] * len(flat)
 
 
+class ReplyError(Exception):
+    """what a call returned is not the kind of thing it is documented to return (not an exception of the implementation:
+    never mistaken for a refusal)."""
+
+
 def val_wire(arr):
     np = _np()
     if not isinstance(arr, (np.ndarray, np.generic, int, float, bool, str)):
         # never np.asarray() an arbitrary object: an Atoms is an endless nested sequence for numpy
-        raise TypeError('a property value was expected, got %s' % type(arr).__name__)
+        raise ReplyError('a property value was expected, got %s' % type(arr).__name__)
     arr = np.asarray(arr)
     return ' '.join(['V', dt_token(arr), str(arr.ndim)] + [str(d) for d in arr.shape] + cell_tokens(arr))
 
@@ -319,7 +345,8 @@ def ix_wire(ix):
 
 def ix_form(ix):
     """form marker of an index spec: None (python int / list / numpy bool array), 'np' (numpy integer scalar, numpy
-    integer array), 'list' (boolean mask as a python list), 'tuple' (integer indices as a tuple is NOT a form: numpy
+    integer array), 'npu' (unsigned numpy integer scalar / array; non-negative indices only), 'np32' (int32 array),
+    'list' (boolean mask as a python list), 'tuple' (integer indices as a tuple is NOT a form: numpy
     reads a tuple as a multi-axis index)."""
     if ix is None or ix[0] == 'S':
         return None
@@ -333,12 +360,18 @@ def ix_py(ix):
     t = ix[0]
     form = ix_form(ix)
     if t == 'I':
+        if form == 'npu':
+            return np.uint8(ix[1])
         return np.int64(ix[1]) if form == 'np' else int(ix[1])
     if t == 'S':
         return slice(ix[1], ix[2], ix[3])
     if t == 'L':
         if form == 'np':
             return np.array([int(v) for v in ix[1]], dtype=np.int64)
+        if form == 'npu':
+            return np.array([int(v) for v in ix[1]], dtype=np.uint16)
+        if form == 'np32':
+            return np.array([int(v) for v in ix[1]], dtype=np.int32)
         return [int(v) for v in ix[1]]
     if t == 'K':
         if form == 'list' and ix[1]:
@@ -353,6 +386,9 @@ def vary_index(rng, ix, p=0.3):
     if ix is None or ix[0] == 'S' or len(ix) > 2 or rng.random() >= p:
         return ix
     if ix[0] in ('I', 'L'):
+        vals = [ix[1]] if ix[0] == 'I' else list(ix[1])
+        if all(v >= 0 for v in vals) and rng.random() < 0.4:
+            return ix[:2] + ['npu']            # unsigned numpy integer (scalar uint8 / array uint16): same selection
         return ix[:2] + ['np']
     if ix[0] == 'K' and ix[1]:
         return ix[:2] + ['list']
@@ -489,7 +525,23 @@ def ix_kw(op):
     return {'index': ix}
 
 
+def flag_arg(op, name):
+    """a boolean flag of the call in the form `<name>_as` asks for: python bool (default), 'int' (1 / 0), 'np'
+    (numpy.True_ / numpy.False_), 'float' (1.0 / 0.0)."""
+    v = bool(op.get(name))
+    form = op.get(name + '_as')
+    if form == 'int':
+        return int(v)
+    if form == 'np':
+        return _np().bool_(v)
+    if form == 'float':
+        return float(v)
+    return v
+
+
 def scale_kw(op):
+    if op.get('scale_as'):
+        return {'scale': flag_arg(op, 'scale')}
     return {'scale': True} if op.get('scale') else {}
 
 
@@ -551,7 +603,7 @@ def exec_real(op, W):
             for kk, v in op.get('extra', []):
                 kw[kk] = lit_arg(v)
             if op.get('safecopy'):
-                kw['safecopy'] = True
+                kw['safecopy'] = flag_arg(op, 'safecopy')
             a = am.Atoms(**kw)
             if op.get('safecopy'):
                 # safecopy=True promises copies: the caller goes on using (here: overwriting) its own arrays
@@ -581,7 +633,7 @@ def exec_real(op, W):
             else:
                 a = S[op['s']].atoms_prop(**ix_kw(op), **scale_kw(op))
             if not isinstance(a, am.Atoms):
-                raise RuntimeError('prop(index=) did not return an Atoms object but %r' % type(a).__name__)
+                raise ReplyError('prop(index=) did not return an Atoms object but %r' % type(a).__name__)
             created.append(('a', 'a%d' % op['id'], a))
             rep = 'ok o'
         elif k == 'spkeys':
@@ -648,10 +700,10 @@ def exec_real(op, W):
                 kw['symbols'] = tuple_form(op, 'symbols')
             if op.get('masses') is not None:
                 kw['masses'] = tuple_form(op, 'masses')
-            if op.get('scale'):
-                kw['scale'] = True
+            if op.get('scale') or op.get('scale_as'):
+                kw['scale'] = flag_arg(op, 'scale')
             if op.get('safecopy'):
-                kw['safecopy'] = True
+                kw['safecopy'] = flag_arg(op, 'safecopy')
             s = am.System(atoms=A[op['o']], box=box, pbc=pbc_form(op), **kw)
             if op.get('safecopy'):
                 created.append(('a', 'a%d' % op['id'], s.atoms))
@@ -686,10 +738,10 @@ def exec_real(op, W):
             mt = re.search(r'^natypes = (\d+)$', r, re.M)
             rep = 'ok n ' + (mt.group(1) if mt else '?')
         elif k == 'spset':
-            S[op['s']].atoms_prop(key=op['key'], **ix_kw(op), value=lit_arg(op['val']), scale=bool(op['scale']))
+            S[op['s']].atoms_prop(key=op['key'], **ix_kw(op), value=lit_arg(op['val']), scale=flag_arg(op, 'scale'))
             rep = 'ok'
         elif k == 'spseta':
-            S[op['s']].atoms_prop(**ix_kw(op), value=A[op['src']], scale=bool(op['scale']))
+            S[op['s']].atoms_prop(**ix_kw(op), value=A[op['src']], scale=flag_arg(op, 'scale'))
             rep = 'ok'
         elif k == 'sext':
             v = op['value']
@@ -698,8 +750,8 @@ def exec_real(op, W):
             if op.get('symbols') is not None:
                 kw['symbols'] = list(op['symbols'])
             if op.get('safecopy'):
-                kw['safecopy'] = True
-            s = S[op['s']].atoms_extend(val, scale=bool(op['scale']), **kw)
+                kw['safecopy'] = flag_arg(op, 'safecopy')
+            s = S[op['s']].atoms_extend(val, scale=flag_arg(op, 'scale'), **kw)
             created.append(('a', 'a%d' % op['id'], s.atoms))
             created.append(('s', 's%d' % op['id'], s))
             W.box['s%d' % op['id']] = W.box.get(op['s'])
@@ -1500,10 +1552,12 @@ def correspond(ctx):
     # the accessor matrix first (fixed histories, a few operations each)
     nmat = 0
     for name, ops in matrix_histories(rng):
-        if name.startswith(('names:', 'tables:extend')):   # the model follows everything but the DataFrame / len / str reads
+        if name.startswith(('names:', 'tables:extend', 'shapes:')):   # the model follows everything but the DataFrame / len / str reads
             ops = [op for op in ops if op['op'] not in SEARCH_ONLY]
-        if any(op['op'] in SEARCH_ONLY or op.get('aid') == 'both' for op in ops):
-            continue        # DataFrames, len/str and the index+a_id refusal are not operations of the model
+        if name.startswith('dtypes:'):
+            ops = [op for op in ops if op['op'] not in SEARCH_ONLY]
+        if any(op['op'] in SEARCH_ONLY or op.get('aid') == 'both' for op in ops) or name.startswith('flags:strict:'):
+            continue        # DataFrames, len/str, the index+a_id refusal and the spelling of a flag are not in the model
         nmat += 1
         e = run_fixed(drv, ops, stats)
         for op in ops:
@@ -2113,6 +2167,9 @@ def resync(W, O, written):
     for (h, key) in written:
         if h not in W.atoms:
             continue
+        if key not in W.atoms[h].view:
+            raise Violation('keys', f'{h}: the operation writes property {key!r} (record model), but the object has no such '
+                            f'property afterwards: keys {list(W.atoms[h].view.keys())}')
         warr = W.atoms[h].view[key]
         for h2, a2 in W.atoms.items():
             for key2 in a2.view:
@@ -2804,6 +2861,16 @@ def matrix_extra(rng, base, mksys, box, donor):
             out.append((f'patype:{key}:{cls}{trail}:t={t}', [base, {'op': 'patype', 'o': 'a0', 'key': key, 'val': v, 't': t},
                                                             {'op': 'pget', 'o': 'a0', 'key': key, 'ix': None},
                                                             {'op': 'natypes', 'o': 'a0'}]))
+    # ---- per-type assignment for a type NO atom has (a gap in the atom types: 2 of 1..3): a new key is created all the
+    #      same (natoms rows of zeros of the value's shape and dtype), an existing one is left as it is
+    gap = dict(base, atype=lit('i', [n], [1, 3, 1, 3, 3]))
+    lr = random.Random(20260929)          # (own stream: the literals of the entries below do not depend on this block)
+    for key, cls, trail in (('p4', 'f', []), ('p4', 'i', [3]), ('p4', 'f', [3, 3]), ('p4', 'f', [1]), ('a-b', 'i', []), ('p0', 'i', []),
+                            ('p1', 'f', [3])):
+        out.append((f'patype:unused-type:{key}:{cls}{trail}', [gap, {'op': 'patype', 'o': 'a0', 'key': key, 'val': gen_lit(lr, cls, trail), 't': 2},
+                                                                 {'op': 'pkeys', 'o': 'a0'}, {'op': 'pget', 'o': 'a0', 'key': key, 'ix': None},
+                                                                 {'op': 'patype', 'o': 'a0', 'key': key, 'val': gen_lit(lr, cls, trail), 't': 3},
+                                                                 {'op': 'pget', 'o': 'a0', 'key': key, 'ix': None}]))
     # ---- the donor is a VIEW of the target (aliasing between a slice and its parent): rows stay aligned for every
     #      index kind and stride (numpy alone protects neither a 1-D boolean nor an unequal-stride 1-D slice assignment)
     views = [('head', ['S', 0, 3, None]), ('every-other', ['S', None, None, 2]), ('tail-rev', ['S', None, 1, -1]),
@@ -3067,6 +3134,8 @@ def matrix_histories(rng, refusals=True):
     out += matrix_extra(rng, base, mksys, box, donor)
     out += matrix_names(rng)
     out += matrix_tables(rng)
+    out += matrix_shapes(rng)
+    out += matrix_flags(rng)
     return out
 
 
@@ -3181,6 +3250,270 @@ def matrix_tables(rng):
     return out
 
 
+# the degenerate per-atom shapes: a per-atom entry that is itself a 1-vector, a 1x1 matrix, a row or a column vector.
+# Their cell count equals that of a scalar (or of a plain 3-vector), so anything that decides by `size`, squeezes,
+# flattens (np.repeat, ravel, reshape(-1)) or strips length-1 axes keeps the right NUMBER of cells in the wrong shape;
+# and it shows only where the leading axis is 1 as well: a ONE-row value, a selection of exactly one atom, a one-atom
+# object (every sub-Atoms is rebuilt through the same setter).
+DEGENERATE = [[1], [1, 1], [1, 3], [3, 1], [1, 1, 1]]
+
+
+def matrix_one_atom_forms(n):
+    """every index form that selects exactly ONE of n = 5 atoms, and three controls."""
+    assert n == 5
+    return [('int', ['I', 2]), ('int0', ['I', 0]), ('neg-int', ['I', -1]), ('neg-int-first', ['I', -5]), ('np-int', ['I', 3, 'np']),
+            ('slice-one', ['S', 2, 3, None]), ('slice-last', ['S', -1, None, None]), ('slice-first-rev', ['S', 0, None, -1]),
+            ('slice-step-one', ['S', 4, None, 3]),
+            ('list-one', ['L', [4]]), ('list-one-neg', ['L', [-2]]), ('np-array-one', ['L', [1], 'np']),
+            ('mask-one', ['K', [False, False, False, True, False]]), ('mask-list-one', ['K', [True, False, False, False, False], 'list']),
+            ('slice-two', ['S', 1, 3, None]), ('list-two', ['L', [3, 0]]), ('slice-empty', ['S', 3, 3, None])]
+
+
+def matrix_shapes(rng):
+    """the degenerate trailing shapes (1,), (1,1), (1,3), (3,1), (1,1,1) of every dtype class, crossed with
+    * every way of selecting exactly ONE atom, through every extracting accessor (`atoms[...]`, `prop(index=)`,
+      `atoms_prop(index=, scale=False / True)`, `atoms_ix[...]`) and every keyed read / write;
+    * every way of CREATING such a property from a full-length, a ONE-row and a bare per-atom value (constructor, view,
+      attribute, prop, atoms_prop, prop_atype with one type / a table), and of overwriting it with a one-row value;
+    * one-atom objects carrying them, read, copied, indexed, extended, used as donors of item assignment and extension."""
+    n = 5
+    out = []
+    box = [2.0, 0.0, 0.0, 1.0, 4.0, 0.0, 0.0, 0.0, 0.5, 1.0, 0.0, 0.0]
+    classes = ['f', 'i', 's', 'b', 'f']
+    for ti, trail in enumerate(DEGENERATE):
+        cls = classes[ti]
+        tname = 'x'.join(str(d) for d in trail)
+
+        def val(shape, c=None):
+            return gen_lit(rng, c or cls, shape)
+
+        def mkbase(c=None):
+            return {'op': 'new', 'id': 0, 'atype': lit('i', [n], [1, 2, 1, 3, 2]), 'pos': gen_lit(rng, 'f', [n, 3]),
+                    'extra': [['p0', gen_lit(rng, 'i', [n])], ['p4', val([n] + trail, c)]]}
+        mksys = {'op': 'mksys', 'o': 'a0', 'id': 1, 'box': box, 'pbc': [True, False, True], 'symbols': ['Al', 'Cu', 'Ni']}
+        # ---- extraction / keyed access x index form
+        for j, (name, ix) in enumerate(matrix_one_atom_forms(n)):
+            c = classes[(ti + j) % 4]              # every dtype class meets every trailing shape and index form
+            base = mkbase(c)
+            m = len(o_positions(n, ix))
+            scalar = ix[0] == 'I'
+            tag = f'{tname}:{c}[{name}]'
+            back = [{'op': 'pkeys', 'o': 'a3'}, {'op': 'pget', 'o': 'a3', 'key': 'p4', 'ix': None}] + \
+                ([{'op': 'pget', 'o': 'a3', 'key': 'p4', 'ix': ['I', 0]}, {'op': 'pget', 'o': 'a3', 'key': 'p4', 'ix': ['S', None, None, None]},
+                  {'op': 'geti', 'o': 'a3', 'ix': ['I', -1], 'id': 8}, {'op': 'pget', 'o': 'a8', 'key': 'p4', 'ix': None}] if m else []) + \
+                ([{'op': 'df', 'o': 'a3'}, {'op': 'ainfo', 'o': 'a3'}] if m else [])
+            out.append((f'shapes:geti:{tag}', [base, {'op': 'geti', 'o': 'a0', 'ix': ix, 'id': 3}] + back))
+            out.append((f'shapes:pgeta:{tag}', [base, {'op': 'pgeta', 'o': 'a0', 'ix': ix, 'id': 3}] + back[:2]))
+            out.append((f'shapes:spgeta:{tag}', [base, mksys, {'op': 'spgeta', 's': 's1', 'ix': ix, 'id': 3,
+                                                               'scale': bool((ti + j) % 2)}] + back[:2]))
+            if m:
+                out.append((f'shapes:ixget:{tag}', [base, mksys, {'op': 'ixget', 's': 's1', 'ix': ix, 'id': 3}, {'op': 'spkeys', 's': 's3'},
+                                                    {'op': 'spget', 's': 's3', 'key': 'p4', 'ix': None},
+                                                    {'op': 'spgeta', 's': 's3', 'ix': None, 'id': 4, 'scale': True},
+                                                    {'op': 'pget', 'o': 'a4', 'key': 'p4', 'ix': None}, {'op': 'sdf', 's': 's3', 'scale': False}]))
+            out.append((f'shapes:pget:{tag}', [base, mksys, {'op': 'pget', 'o': 'a0', 'key': 'p4', 'ix': ix},
+                                               {'op': 'spget', 's': 's1', 'key': 'p4', 'ix': ix}]))
+            shapes = [([] if scalar else [m]) + trail, [], [1] + trail, list(trail)]
+            for sh in shapes:
+                out.append((f'shapes:pset{sh}:{tag}', [base, {'op': 'pset', 'o': 'a0', 'key': 'p4', 'ix': ix, 'val': val(sh, c)},
+                                                       {'op': 'pget', 'o': 'a0', 'key': 'p4', 'ix': None}]))
+            if m:
+                # item assignment from a donor of m atoms with the same properties (another key order)
+                donor = {'op': 'new', 'id': 2, 'atype': gen_lit(rng, 'i', [m], 'atype'), 'pos': gen_lit(rng, 'f', [m, 3]),
+                         'extra': [['p4', val([m] + trail, c)], ['p0', gen_lit(rng, 'i', [m])]]}
+                kind = ('seti', 'pseta', 'ixset')[j % 3]
+                op = {'seti': {'op': 'seti', 'o': 'a0', 'ix': ix, 'src': 'a2'}, 'pseta': {'op': 'pseta', 'o': 'a0', 'ix': ix, 'src': 'a2'},
+                      'ixset': {'op': 'ixset', 's': 's1', 'ix': ix, 'src': ['a', 'a2']}}[kind]
+                out.append((f'shapes:{kind}:{tag}', [base, mksys, donor, op, {'op': 'pget', 'o': 'a0', 'key': 'p4', 'ix': None}]))
+        # ---- creation: full-length / ONE row / bare per-atom value, every route; then overwritten with one row
+        base0 = {'op': 'new', 'id': 0, 'atype': lit('i', [n], [1, 2, 1, 3, 2]), 'pos': gen_lit(rng, 'f', [n, 3]),
+                 'extra': [['p0', gen_lit(rng, 'i', [n])]]}
+        reads = [{'op': 'pkeys', 'o': 'a0'}, {'op': 'pget', 'o': 'a0', 'key': 'p4', 'ix': None},
+                 {'op': 'pget', 'o': 'a0', 'key': 'p4', 'ix': ['I', 1]}, {'op': 'geti', 'o': 'a0', 'ix': ['L', [2]], 'id': 3},
+                 {'op': 'pget', 'o': 'a3', 'key': 'p4', 'ix': None}, {'op': 'df', 'o': 'a0'}]
+        for c in ('f', 'i', 's', 'b'):
+            for vname, sh in (('full', [n] + trail), ('row', [1] + trail), ('bare', list(trail))):
+                routes = [('ctor', [dict(base0, extra=base0['extra'] + [['p4', val(sh, c)]]), mksys]),
+                          ('view', [base0, mksys, {'op': 'setv', 'o': 'a0', 'key': 'p4', 'val': val(sh, c), 'via': 'view'}]),
+                          ('attr', [base0, mksys, {'op': 'setv', 'o': 'a0', 'key': 'p4', 'val': val(sh, c), 'via': 'attr'}]),
+                          ('prop', [base0, mksys, {'op': 'pset', 'o': 'a0', 'key': 'p4', 'ix': None, 'val': val(sh, c)}]),
+                          ('sprop', [base0, mksys, {'op': 'spset', 's': 's1', 'key': 'p4', 'ix': None, 'val': val(sh, c), 'scale': False}])]
+                for rname, pre in routes:
+                    if vname == 'bare' and trail[0] != 1:
+                        # a bare (3, 1) value is neither one row nor one row per atom: refused, nothing created
+                        out.append((f'shapes:create:{rname}:{vname}:{tname}:{c}', pre[:-1] + [dict(pre[-1], refuse='first-dimension')]
+                                    if rname != 'ctor' else [dict(pre[0], refuse='first-dimension')]))
+                        continue
+                    again = [{'op': 'setv', 'o': 'a0', 'key': 'p4', 'val': val([1] + trail, c), 'via': ('view', 'attr')[len(rname) % 2]},
+                             {'op': 'pget', 'o': 'a0', 'key': 'p4', 'ix': None}] if vname != 'bare' else []
+                    out.append((f'shapes:create:{rname}:{vname}:{tname}:{c}', pre + reads + again))
+        for c in ('f', 'i'):
+            for t, sh in ((2, list(trail)), (None, [3] + trail)):
+                out.append((f'shapes:create:patype:t={t}:{tname}:{c}',
+                            [base0, {'op': 'patype', 'o': 'a0', 'key': 'p4', 'val': val(sh, c), 't': t}] + reads[:5]
+                            + [{'op': 'patype', 'o': 'a0', 'key': 'p4', 'val': val(sh, c), 't': t},
+                               {'op': 'pget', 'o': 'a0', 'key': 'p4', 'ix': None}]))
+        # ---- one-atom objects
+        for c in ('f', 'i', 's', 'b'):
+            for vname, sh in (('row', [1] + trail), ('bare', list(trail))):
+                one = {'op': 'new', 'id': 2, 'atype': lit('i', [1], [3]), 'pos': gen_lit(rng, 'f', [1, 3]),
+                       'extra': [['p4', val(sh, c)], ['p0', gen_lit(rng, 'i', [1])]]}
+                base = mkbase(c)
+                tag = f'{vname}:{tname}:{c}'
+                if vname == 'bare' and trail[0] != 1:
+                    out.append((f'shapes:one:read:{tag}', [dict(one, refuse='first-dimension')]))
+                    continue
+                out.append((f'shapes:one:read:{tag}', [
+                    one, {'op': 'pkeys', 'o': 'a2'}, {'op': 'pget', 'o': 'a2', 'key': 'p4', 'ix': None},
+                    {'op': 'pget', 'o': 'a2', 'key': 'p4', 'ix': ['I', 0]}, {'op': 'pget', 'o': 'a2', 'key': 'p4', 'ix': ['I', -1]},
+                    {'op': 'geti', 'o': 'a2', 'ix': ['I', 0], 'id': 3}, {'op': 'pget', 'o': 'a3', 'key': 'p4', 'ix': None},
+                    {'op': 'geti', 'o': 'a2', 'ix': ['S', None, None, None], 'id': 4}, {'op': 'pget', 'o': 'a4', 'key': 'p4', 'ix': None},
+                    {'op': 'geti', 'o': 'a2', 'ix': ['K', [True]], 'id': 5}, {'op': 'pget', 'o': 'a5', 'key': 'p4', 'ix': None},
+                    {'op': 'dcopy', 'o': 'a2', 'id': 6}, {'op': 'pget', 'o': 'a6', 'key': 'p4', 'ix': None},
+                    {'op': 'df', 'o': 'a2'}, {'op': 'ainfo', 'o': 'a2'}]))
+                if vname == 'bare':
+                    continue      # (a bare value on one atom is a one-row value of the shorter trailing shape: read above)
+                out.append((f'shapes:one:grow:{tag}', [
+                    one, {'op': 'exti', 'o': 'a2', 'n': 2, 'id': 3}, {'op': 'pget', 'o': 'a3', 'key': 'p4', 'ix': None},
+                    base, {'op': 'exta', 'o': 'a0', 'src': 'a2', 'id': 4}, {'op': 'pget', 'o': 'a4', 'key': 'p4', 'ix': None},
+                    {'op': 'exta', 'o': 'a2', 'src': 'a0', 'id': 5}, {'op': 'pget', 'o': 'a5', 'key': 'p4', 'ix': None},
+                    {'op': 'exta', 'o': 'a2', 'src': 'a2', 'id': 6}, {'op': 'pget', 'o': 'a6', 'key': 'p4', 'ix': None},
+                    {'op': 'df', 'o': 'a4'},
+                    # the degenerate property exists in the donor only / in the extended object only (zero rows of its shape)
+                    dict(base0, id=7), {'op': 'exta', 'o': 'a7', 'src': 'a2', 'id': 8}, {'op': 'pget', 'o': 'a8', 'key': 'p4', 'ix': None},
+                    {'op': 'exta', 'o': 'a2', 'src': 'a7', 'id': 9}, {'op': 'pget', 'o': 'a9', 'key': 'p4', 'ix': None},
+                    {'op': 'exta', 'o': 'a7', 'src': 'a0', 'id': 10}, {'op': 'pget', 'o': 'a10', 'key': 'p4', 'ix': None},
+                    {'op': 'df', 'o': 'a8'}]))
+                out.append((f'shapes:one:system:{tag}', [
+                    one, {'op': 'mksys', 'o': 'a2', 'id': 1, 'box': box, 'pbc': [True, True, False], 'symbols': ['Al', 'Cu', 'Ni']},
+                    {'op': 'ixget', 's': 's1', 'ix': ['I', 0], 'id': 3}, {'op': 'spget', 's': 's3', 'key': 'p4', 'ix': None},
+                    {'op': 'spgeta', 's': 's1', 'ix': None, 'id': 4, 'scale': True}, {'op': 'pget', 'o': 'a4', 'key': 'p4', 'ix': None},
+                    {'op': 'spgeta', 's': 's1', 'ix': ['I', -1], 'id': 5}, {'op': 'pget', 'o': 'a5', 'key': 'p4', 'ix': None},
+                    {'op': 'sext', 's': 's1', 'value': ['i', 2], 'scale': False, 'symbols': None, 'id': 6},
+                    {'op': 'spget', 's': 's6', 'key': 'p4', 'ix': None}, {'op': 'sdcopy', 's': 's1', 'id': 7},
+                    {'op': 'spget', 's': 's7', 'key': 'p4', 'ix': None}, {'op': 'sdf', 's': 's1', 'scale': True}]))
+                out.append((f'shapes:one:donor:{tag}', [
+                    base, mksys, one, {'op': 'seti', 'o': 'a0', 'ix': ['I', 3], 'src': 'a2'}, {'op': 'pget', 'o': 'a0', 'key': 'p4', 'ix': None},
+                    {'op': 'pseta', 'o': 'a0', 'ix': ['L', [1]], 'src': 'a2'}, {'op': 'ixset', 's': 's1', 'ix': ['S', 4, None, None], 'src': ['a', 'a2']},
+                    {'op': 'pget', 'o': 'a0', 'key': 'p4', 'ix': None},
+                    {'op': 'sext', 's': 's1', 'value': ['a', 'a2'], 'scale': False, 'symbols': None, 'id': 5},
+                    {'op': 'spget', 's': 's5', 'key': 'p4', 'ix': None}]))
+    return out
+
+
+def matrix_flags(rng):
+    """boolean flags of the calls given as 1 / 0 / numpy.True_ / numpy.False_ / 1.0; integer-typed data and indices in the
+    narrower and unsigned dtypes (uint64 is what Atoms itself uses for the default atype).
+    * `scale` of System(...), atoms_prop: documented as bool; the code refuses anything else with TypeError.  Clause:
+      a non-bool flag is either refused (TypeError, nothing changes) or taken as its truth value - never a third thing
+      (`flags:strict:`: search only, the model has no notion of a flag's spelling).
+    * `scale` of atoms_extend, `safecopy` everywhere: tested for truth by the code; the model sees the bool
+      (`flags:truthy:`).
+    * `dtypes:`: the same numbers as uint64 / uint8 / uint16 / int32 (float32) arrays and numpy scalars, for atom types,
+      values written into int64 / float64 columns, per-type tables and index arrays; the model sees the numbers."""
+    n = 5
+    out = []
+    box = [2.0, 0.0, 0.0, 1.0, 4.0, 0.0, 0.0, 0.0, 0.5, 1.0, 0.0, 0.0]
+    base = {'op': 'new', 'id': 0, 'atype': lit('i', [n], [1, 2, 1, 3, 2]), 'pos': gen_lit(rng, 'f', [n, 3]),
+            'extra': [['p0', gen_lit(rng, 'i', [n])], ['p1', gen_lit(rng, 'f', [n, 3])]]}
+    mksys = {'op': 'mksys', 'o': 'a0', 'id': 1, 'box': box, 'pbc': [True, False, True], 'symbols': ['Al', 'Cu', 'Ni']}
+    donor = {'op': 'new', 'id': 2, 'atype': lit('i', [2], [2, 1]), 'pos': gen_lit(rng, 'f', [2, 3]),
+             'extra': [['p1', gen_lit(rng, 'f', [2, 3])], ['p0', gen_lit(rng, 'i', [2])]]}
+    look = [{'op': 'spget', 's': 's1', 'key': 'pos', 'ix': None}, {'op': 'pget', 'o': 'a0', 'key': 'p1', 'ix': None}]
+    for form in ('int', 'np', 'float'):
+        for sc in (True, False):
+            f = {'scale': sc, 'scale_as': form}
+            tag = f'{form}:{sc}'
+            out.append((f'flags:strict:mksys:{tag}', [base, dict(mksys, **f), {'op': 'spget', 's': 's1', 'key': 'pos', 'ix': None}]))
+            out.append((f'flags:strict:spget:{tag}', [base, mksys, dict({'op': 'spget', 's': 's1', 'key': 'pos', 'ix': None}, **f)] + look))
+            out.append((f'flags:strict:spget-ix:{tag}', [base, mksys, dict({'op': 'spget', 's': 's1', 'key': 'p1', 'ix': ['I', 1]}, **f)]))
+            out.append((f'flags:strict:spgeta:{tag}', [base, mksys, dict({'op': 'spgeta', 's': 's1', 'ix': ['S', 1, 3, None], 'id': 3}, **f)] + look))
+            out.append((f'flags:strict:spset:{tag}', [base, mksys, dict({'op': 'spset', 's': 's1', 'key': 'pos', 'ix': ['I', 0],
+                                                                        'val': lit('f', [3], [0.5, 0.25, 0.5])}, **f)] + look))
+            out.append((f'flags:strict:spseta:{tag}', [base, mksys, donor, dict({'op': 'spseta', 's': 's1', 'ix': ['L', [1, 3]], 'src': 'a2'}, **f)]
+                        + look + [{'op': 'pget', 'o': 'a2', 'key': 'pos', 'ix': None}]))
+            out.append((f'flags:truthy:sext:{tag}', [base, mksys, donor, dict({'op': 'sext', 's': 's1', 'value': ['a', 'a2'], 'symbols': None,
+                                                                              'id': 3}, **f),
+                                                     {'op': 'spget', 's': 's3', 'key': 'pos', 'ix': None},
+                                                     {'op': 'pget', 'o': 'a2', 'key': 'pos', 'ix': None}]))
+        out.append((f'flags:truthy:safecopy:{form}', [
+            dict(base, safecopy=True, safecopy_as=form), dict(mksys, safecopy=True, safecopy_as=form),
+            {'op': 'pset', 'o': 'a0', 'key': 'p0', 'ix': ['I', 1], 'val': lit('i', [], [77])},
+            {'op': 'spget', 's': 's1', 'key': 'p0', 'ix': None}, donor,
+            {'op': 'sext', 's': 's1', 'value': ['a', 'a2'], 'scale': False, 'symbols': None, 'id': 3, 'safecopy': True,
+             'safecopy_as': form}, {'op': 'spget', 's': 's3', 'key': 'p1', 'ix': None}]))
+        out.append((f'flags:truthy:mksys-both:{form}', [
+            base, dict(mksys, scale=True, safecopy=True, safecopy_as=form), {'op': 'spget', 's': 's1', 'key': 'pos', 'ix': None},
+            {'op': 'pget', 'o': 'a0', 'key': 'pos', 'ix': None}]))
+    # ---- narrower / unsigned dtypes of the same numbers
+    for dt in ('uint64', 'uint8', 'uint16', 'int32', 'int8'):
+        b = dict(base, atype=dict(base['atype'], **{'as': dt}))
+        out.append((f'dtypes:atype:{dt}', [
+            b, mksys, {'op': 'pget', 'o': 'a0', 'key': 'atype', 'ix': None}, {'op': 'natypes', 'o': 'a0'},
+            {'op': 'symget', 's': 's1'}, {'op': 'massget', 's': 's1'}, {'op': 'snatypes', 's': 's1'}, {'op': 'satypes', 's': 's1'},
+            {'op': 'scomp', 's': 's1'}, {'op': 'geti', 'o': 'a0', 'ix': ['L', [3, 1]], 'id': 3}, {'op': 'natypes', 'o': 'a3'},
+            {'op': 'dcopy', 'o': 'a0', 'id': 4}, {'op': 'ixget', 's': 's1', 'ix': ['S', 1, 4, None], 'id': 5}, {'op': 'symget', 's': 's5'},
+            {'op': 'exti', 'o': 'a0', 'n': 2, 'id': 6}, {'op': 'pget', 'o': 'a6', 'key': 'atype', 'ix': None},
+            {'op': 'patype', 'o': 'a0', 'key': 'p4', 'val': lit('f', [3], [0.5, 1.5, 2.5]), 't': None},
+            {'op': 'pget', 'o': 'a0', 'key': 'p4', 'ix': None},
+            {'op': 'patype', 'o': 'a0', 'key': 'p0', 'val': lit('i', [], [9]), 't': 2}, {'op': 'pget', 'o': 'a0', 'key': 'p0', 'ix': None},
+            donor, {'op': 'exta', 'o': 'a0', 'src': 'a2', 'id': 7}, {'op': 'pget', 'o': 'a7', 'key': 'atype', 'ix': None},
+            {'op': 'exta', 'o': 'a2', 'src': 'a0', 'id': 8}, {'op': 'pget', 'o': 'a8', 'key': 'atype', 'ix': None},
+            {'op': 'df', 'o': 'a0'}, {'op': 'ainfo', 'o': 'a0'}]))
+        if dt == 'int8':
+            continue
+        u = {'as': dt}
+        out.append((f'dtypes:values:{dt}', [
+            base, mksys,
+            {'op': 'pset', 'o': 'a0', 'key': 'p0', 'ix': ['L', [0, 3]], 'val': dict(lit('i', [2], [7, 41]), **u)},
+            {'op': 'pset', 'o': 'a0', 'key': 'p0', 'ix': ['I', -1], 'val': dict(lit('i', [], [5]), **u)},
+            {'op': 'pset', 'o': 'a0', 'key': 'p1', 'ix': ['S', 1, 3, None], 'val': dict(lit('i', [3], [1, 2, 3]), **u)},
+            {'op': 'pset', 'o': 'a0', 'key': 'atype', 'ix': ['K', [False, True, False, False, True]], 'val': dict(lit('i', [2], [4, 1]), **u)},
+            {'op': 'massget', 's': 's1'}, {'op': 'natypes', 'o': 'a0'},
+            {'op': 'setv', 'o': 'a0', 'key': 'p0', 'val': dict(lit('i', [1], [3]), **u), 'via': 'view'},
+            {'op': 'setv', 'o': 'a0', 'key': 'atype', 'val': dict(lit('i', [n], [2, 1, 5, 1, 2]), **u), 'via': 'attr'},
+            {'op': 'symget', 's': 's1'},
+            {'op': 'patype', 'o': 'a0', 'key': 'p0', 'val': dict(lit('i', [5], [10, 20, 30, 40, 50]), **u), 't': None},
+            {'op': 'patype', 'o': 'a0', 'key': 'atype', 'val': dict(lit('i', [], [3]), **u), 't': 5},
+            {'op': 'spset', 's': 's1', 'key': 'p0', 'ix': ['I', 2], 'val': dict(lit('i', [], [8]), **u), 'scale': False},
+            {'op': 'pget', 'o': 'a0', 'key': 'p0', 'ix': None}, {'op': 'pget', 'o': 'a0', 'key': 'p1', 'ix': None},
+            {'op': 'pget', 'o': 'a0', 'key': 'atype', 'ix': None}, {'op': 'satypes', 's': 's1'}]))
+        # hostile: an atom type of 0 in an unsigned dtype (no sign to give it away)
+        for h in ({'op': 'pset', 'o': 'a0', 'key': 'atype', 'ix': ['I', 1], 'val': dict(lit('i', [], [0]), **u)},
+                  {'op': 'setv', 'o': 'a0', 'key': 'atype', 'val': dict(lit('i', [n], [1, 2, 0, 1, 1]), **u), 'via': 'view'},
+                  {'op': 'patype', 'o': 'a0', 'key': 'atype', 'val': dict(lit('i', [], [0]), **u), 't': 2}):
+            out.append((f"dtypes:hostile:{h['op']}:{dt}", [base, mksys, dict(h, hostile=True), {'op': 'natypes', 'o': 'a0'}]))
+    out.append(('dtypes:float32', [
+        dict(base, pos=dict(base['pos'], **{'as': 'float32'})), {'op': 'pget', 'o': 'a0', 'key': 'pos', 'ix': None},
+        {'op': 'pset', 'o': 'a0', 'key': 'p1', 'ix': ['I', 2], 'val': dict(lit('f', [3], [0.5, -1.25, 2.0]), **{'as': 'float32'})},
+        {'op': 'pset', 'o': 'a0', 'key': 'pos', 'ix': ['L', [0, 4]], 'val': lit('f', [3], [0.5, 0.25, -3.5])},
+        {'op': 'geti', 'o': 'a0', 'ix': ['S', None, None, 2], 'id': 3}, {'op': 'pget', 'o': 'a3', 'key': 'pos', 'ix': None},
+        {'op': 'dcopy', 'o': 'a0', 'id': 4}, {'op': 'exti', 'o': 'a0', 'n': 1, 'id': 5}, {'op': 'pget', 'o': 'a5', 'key': 'pos', 'ix': None},
+        {'op': 'pget', 'o': 'a0', 'key': 'p1', 'ix': None}]))
+    # ---- index arrays / scalars of unsigned and 32-bit integer dtypes
+    for name, ix in (('uint8-scalar', ['I', 3, 'npu']), ('uint8-zero', ['I', 0, 'npu']), ('uint16-array', ['L', [1, 4, 2], 'npu']),
+                     ('uint16-one', ['L', [3], 'npu']), ('uint16-dup', ['L', [2, 2, 0], 'npu']), ('int32-array', ['L', [-1, 0, 3], 'np32']),
+                     ('uint16-empty', ['L', [], 'npu'])):
+        m = len(o_positions(n, ix))
+        scalar = ix[0] == 'I'
+        pre = [base, mksys]
+        out.append((f'dtypes:index:read:{name}', pre + [
+            {'op': 'pget', 'o': 'a0', 'key': 'p1', 'ix': ix}, {'op': 'spget', 's': 's1', 'key': 'pos', 'ix': ix, 'scale': True},
+            {'op': 'geti', 'o': 'a0', 'ix': ix, 'id': 3}, {'op': 'pgeta', 'o': 'a0', 'ix': ix, 'id': 4},
+            {'op': 'spgeta', 's': 's1', 'ix': ix, 'id': 5, 'scale': True}] + ([{'op': 'ixget', 's': 's1', 'ix': ix, 'id': 6}] if m else [])))
+        if 'dup' in name:
+            continue
+        out.append((f'dtypes:index:write:{name}', pre + [
+            {'op': 'pset', 'o': 'a0', 'key': 'p0', 'ix': ix, 'val': gen_lit(rng, 'i', [] if scalar else [m])},
+            {'op': 'pset', 'o': 'a0', 'key': 'p1', 'ix': ix, 'val': gen_lit(rng, 'f', [3])},
+            {'op': 'spset', 's': 's1', 'key': 'pos', 'ix': ix, 'val': gen_lit(rng, 'f', [3]), 'scale': True}]
+            + ([dict(donor, atype=gen_lit(rng, 'i', [m], 'atype'), pos=gen_lit(rng, 'f', [m, 3]),
+                     extra=[['p1', gen_lit(rng, 'f', [m, 3])], ['p0', gen_lit(rng, 'i', [m])]]),
+                {'op': 'seti', 'o': 'a0', 'ix': ix, 'src': 'a2'}] if m else [])
+            + [{'op': 'pget', 'o': 'a0', 'key': 'p0', 'ix': None}, {'op': 'pget', 'o': 'a0', 'key': 'pos', 'ix': None}]))
+    return out
+
+
 def run_oracle_history(ops_or_gen, rng=None, length=0, ctx=None):
     """run a history on the real code next to the record model; returns (ops executed, Violation|None)."""
     W, O, OS = World(), {}, {}
@@ -3232,6 +3565,13 @@ def run_oracle_history(ops_or_gen, rng=None, length=0, ctx=None):
             rep, created = exec_real(op, W)
             if rep.startswith('err') and op.get('hostile'):
                 check_clauses(op, W, O, OS, pre_arrays, None, [])      # refused: nothing may have changed
+                continue
+            if (op.get('scale_as') or op.get('safecopy_as')) and rep == 'err:type':
+                # a flag that is not a python bool: refused with TypeError (nothing may have changed) - or taken as its
+                # truth value, in which case the operation is the one with the bool and is checked as such below
+                check_clauses(op, W, O, OS, pre_arrays, None, [])
+                if ctx is not None:
+                    ctx.stats.case('oracle:flag-refused', json.dumps(op, sort_keys=True, default=str))
                 continue
             if op.get('refuse'):
                 if not rep.startswith('err'):
